@@ -30,6 +30,15 @@ pub fn is_iter_chain(e: &Expr) -> bool {
     t.contains(".iter()") || t.contains(".iter_mut()") || t.contains(".zip(") || t.contains(".windows(") || t.contains(".into_iter()") || t.contains(".enumerate()")
 }
 
+fn has_skip(s: &Src) -> bool {
+    match s {
+        Src::Skip(..) => true,
+        Src::Copied(a) | Src::Enumerate(a) | Src::Map(a, _) => has_skip(a),
+        Src::Zip(a, b) => has_skip(a) || has_skip(b),
+        _ => false,
+    }
+}
+
 fn strip_paren(e: &Expr) -> &Expr {
     match e {
         Expr::Paren(p) => strip_paren(&p.expr),
@@ -47,7 +56,14 @@ pub fn parse_src(e: &Expr) -> Option<Src> {
                 ("iter", 0) => Some(Src::Iter((*mc.receiver).clone())),
                 ("iter_mut", 0) => Some(Src::IterMut((*mc.receiver).clone())),
                 ("copied", 0) | ("cloned", 0) => Some(Src::Copied(Box::new(parse_src(&mc.receiver)?))),
-                ("enumerate", 0) => Some(Src::Enumerate(Box::new(parse_src(&mc.receiver)?))),
+                ("enumerate", 0) => {
+                    // `skip(k).enumerate()` restarts the count at 0: not index-aligned, not supported
+                    let inner = parse_src(&mc.receiver)?;
+                    if has_skip(&inner) {
+                        return None;
+                    }
+                    Some(Src::Enumerate(Box::new(inner)))
+                }
                 ("zip", 1) => {
                     let a = parse_src(&mc.receiver)?;
                     let arg = strip_paren(&mc.args[0]);
@@ -61,9 +77,19 @@ pub fn parse_src(e: &Expr) -> Option<Src> {
                             _ => return None,
                         },
                     };
+                    // a skipped side would pair item i+k with item i: not index-aligned, not supported
+                    if has_skip(&a) || has_skip(&b) {
+                        return None;
+                    }
                     Some(Src::Zip(Box::new(a), Box::new(b)))
                 }
-                ("skip", 1) => Some(Src::Skip(Box::new(parse_src(&mc.receiver)?), mc.args[0].clone())),
+                ("skip", 1) => {
+                    let inner = parse_src(&mc.receiver)?;
+                    if has_skip(&inner) {
+                        return None;
+                    }
+                    Some(Src::Skip(Box::new(inner), mc.args[0].clone()))
+                }
                 ("windows", 1) => {
                     if ts_str(&mc.args[0]) == "2" {
                         Some(Src::Windows2((*mc.receiver).clone()))
@@ -284,6 +310,31 @@ impl VisitMut for HasContinue {
     }
 }
 
+struct TryToBreak {
+    err: syn::Ident,
+    bad: bool,
+}
+impl VisitMut for TryToBreak {
+    fn visit_expr_mut(&mut self, e: &mut Expr) {
+        match e {
+            Expr::Closure(_) | Expr::While(_) | Expr::ForLoop(_) | Expr::Loop(_) => {
+                let t = ts_str(e);
+                if t.contains('?') || t.contains("return") {
+                    self.bad = true;
+                }
+            }
+            Expr::Return(_) => self.bad = true,
+            Expr::Try(t) => {
+                let mut inner = (*t.expr).clone();
+                self.visit_expr_mut(&mut inner);
+                let err = &self.err;
+                *e = parse_quote!(match #inner { Ok(__t) => __t, Err(__e) => { #err = Some(__e); break; } });
+            }
+            _ => visit_mut::visit_expr_mut(self, e),
+        }
+    }
+}
+
 pub fn desugar(rw: &mut Rw, e: &Expr) -> Option<Expr> {
     match e {
         Expr::MethodCall(mc) => {
@@ -295,6 +346,10 @@ pub fn desugar(rw: &mut Rw, e: &Expr) -> Option<Expr> {
                         _ => return None,
                     };
                     let s = parse_src(&mc.receiver)?;
+                    if m == "position" && has_skip(&s) {
+                        // position() counts from the first item AFTER the skip: not the slice index
+                        return None;
+                    }
                     let (mk, v, amk) = marker(rw, &m, &s);
                     let idx = format_ident!("__i{}", v);
                     let r = format_ident!("__r{}", v);
@@ -354,6 +409,7 @@ pub fn desugar(rw: &mut Rw, e: &Expr) -> Option<Expr> {
                 "sum" if mc.args.is_empty() => {
                     let s = parse_src(&mc.receiver)?;
                     let (mk, v, amk) = marker(rw, "sum", &s);
+                    let start: Expr = start_of(&s).unwrap_or_else(|| parse_quote!(0));
                     let idx = format_ident!("__i{}", v);
                     let acc = format_ident!("__acc{}", v);
                     let mut cs = vec![];
@@ -375,7 +431,7 @@ pub fn desugar(rw: &mut Rw, e: &Expr) -> Option<Expr> {
                     rw.fire("R-ITER.sum");
                     Some(parse_quote!({
                         let mut #acc: Q = Q::zero();
-                        let mut #idx: usize = 0;
+                        let mut #idx: usize = #start;
                         while #cond {
                             #mk
                             #(#binds)*
@@ -397,6 +453,7 @@ pub fn desugar(rw: &mut Rw, e: &Expr) -> Option<Expr> {
                     let s = parse_src(&mc.receiver)?;
                     let init = mc.args[0].clone();
                     let (mk, v, amk) = marker(rw, "fold", &s);
+                    let start: Expr = start_of(&s).unwrap_or_else(|| parse_quote!(0));
                     let idx = format_ident!("__i{}", v);
                     let acc = format_ident!("__acc{}", v);
                     let mut cs = vec![];
@@ -414,7 +471,7 @@ pub fn desugar(rw: &mut Rw, e: &Expr) -> Option<Expr> {
                     rw.fire("R-ITER.fold");
                     Some(parse_quote!({
                         let mut #acc = #init;
-                        let mut #idx: usize = 0;
+                        let mut #idx: usize = #start;
                         while #cond {
                             #mk
                             let #accpat = #acc;
@@ -426,12 +483,67 @@ pub fn desugar(rw: &mut Rw, e: &Expr) -> Option<Expr> {
                         #acc
                     }))
                 }
+                "try_fold" if mc.args.len() == 2 => {
+                    // R-ITER.try_fold: the closure returns Result; `?` inside it leaves the CLOSURE, so every `?`
+                    // of the inlined body becomes "record the error and break"; the block's value is the Result
+                    let cl = match &mc.args[1] {
+                        Expr::Closure(c) => c.clone(),
+                        _ => return None,
+                    };
+                    if cl.inputs.len() != 2 {
+                        return None;
+                    }
+                    let s = parse_src(&mc.receiver)?;
+                    let init = mc.args[0].clone();
+                    let (mk, v, amk) = marker(rw, "try_fold", &s);
+                    let start: Expr = start_of(&s).unwrap_or_else(|| parse_quote!(0));
+                    let idx = format_ident!("__i{}", v);
+                    let acc = format_ident!("__acc{}", v);
+                    let err = format_ident!("__err{}", v);
+                    let mut cs = vec![];
+                    conds(&s, &idx, &mut cs);
+                    let cond = and_all(cs);
+                    let mut binds = vec![];
+                    let accpat = cl.inputs[0].clone();
+                    let mut body = match closure_apply(rw, &s, &cl, &idx, &mut binds) {
+                        Ok(b) => b,
+                        Err(e) => {
+                            rw.err(format!("R-ITER try_fold: {}", e));
+                            return None;
+                        }
+                    };
+                    let mut tb = TryToBreak { err: err.clone(), bad: false };
+                    tb.visit_expr_mut(&mut body);
+                    if tb.bad {
+                        rw.err("R-ITER try_fold: `?` / return inside a nested loop or closure of the closure body".into());
+                        return None;
+                    }
+                    rw.fire("R-ITER.try_fold");
+                    Some(parse_quote!({
+                        let mut #acc = #init;
+                        let mut #err: Option<VErr> = None;
+                        let mut #idx: usize = #start;
+                        while #cond {
+                            #mk
+                            let #accpat = #acc;
+                            #(#binds)*
+                            match #body {
+                                Ok(__v) => { #acc = __v; }
+                                Err(__e) => { #err = Some(__e); break; }
+                            }
+                            #idx = #idx + 1;
+                        }
+                        #amk
+                        match #err { Some(__e) => Err(__e), None => Ok(#acc) }
+                    }))
+                }
                 "collect" if mc.args.is_empty() => {
                     let s = parse_src(&mc.receiver)?;
                     if !matches!(s, Src::Map(..)) {
                         return None;
                     }
                     let (mk, v, amk) = marker(rw, "collect", &s);
+                    let start: Expr = start_of(&s).unwrap_or_else(|| parse_quote!(0));
                     let idx = format_ident!("__i{}", v);
                     let acc = format_ident!("__v{}", v);
                     let mut cs = vec![];
@@ -452,7 +564,7 @@ pub fn desugar(rw: &mut Rw, e: &Expr) -> Option<Expr> {
                     };
                     Some(parse_quote!({
                         #decl
-                        let mut #idx: usize = 0;
+                        let mut #idx: usize = #start;
                         while #cond {
                             #mk
                             #(#binds)*
@@ -470,6 +582,7 @@ pub fn desugar(rw: &mut Rw, e: &Expr) -> Option<Expr> {
                     };
                     let s = parse_src(&mc.receiver)?;
                     let (mk, v, amk) = marker(rw, "for_each", &s);
+                    let start: Expr = start_of(&s).unwrap_or_else(|| parse_quote!(0));
                     let idx = format_ident!("__i{}", v);
                     let mut cs = vec![];
                     conds(&s, &idx, &mut cs);
@@ -484,7 +597,7 @@ pub fn desugar(rw: &mut Rw, e: &Expr) -> Option<Expr> {
                     };
                     rw.fire("R-ITER.for_each");
                     Some(parse_quote!({
-                        let mut #idx: usize = 0;
+                        let mut #idx: usize = #start;
                         while #cond {
                             #mk
                             #(#binds)*
